@@ -145,3 +145,149 @@ Definition run_cmp_streams (a : args) : args :=
   let role := argn a 0 in let exp := argn a 2 in
   if negb (exp =? 0) && negb (memN exp (role_input_streams role)) then [[777777]]
   else [[ord_code (cmp_input_streams role (argn a 1) (if exp =? 0 then None else Some exp))]].
+
+(* ---- lockstep check of the refinement abs (op p) = aop (abs p) (model-internal; used to validate the
+        statement of the refinement theorem on the generators' schedules before/besides proving it) ---- *)
+From FV Require Import Parser.AbsStream.
+Definition sst_eqb (x y : sstate) : bool :=
+  match x, y with SStream, SStream | SSkip, SSkip => true | SValues v, SValues w => v =? w | _, _ => false end.
+Definition ast_eqb (x y : ast) : bool :=
+  (a_B x =? a_B y) && (a_space x =? a_space y) && beq (a_parsed x) (a_parsed y) && beq (a_raw x) (a_raw y)
+  && beq (a_out x) (a_out y) && optN_eqb (a_stream x) (a_stream y) && (a_prem x =? a_prem y) && (a_pad x =? a_pad y)
+  && sst_eqb (a_st x) (a_st y) && (r_id (a_req x) =? r_id (a_req y)) && (r_role (a_req x) =? r_role (a_req y)).
+Definition status_eqb (x y : status) : bool :=
+  (s_stream x =? s_stream y) && Bool.eqb (s_end x) (s_end y) && (s_output x =? s_output y) && beq (s_dest x) (s_dest y).
+Definition ri_ok (p : sp) : bool :=
+  invars_ok p && (negb (output_start p =? len (output p)) || (len (output p) =? 0)).
+
+Fixpoint refine_ops (fuel : nat) (maxc : N) (p : sp) (wire : bytes) (ops : list (list N)) (k : N) : list N :=
+  match fuel with
+  | O => [2; k]
+  | S f =>
+    match ops with
+    | [] => [1; k]
+    | op :: rest =>
+      let a := abs p in
+      let a1 := nth 1 op 0 in let a2 := nth 2 op 0 in
+      if negb (ri_ok p) then [0; k; 100] else
+      match hd 99 op with
+      | 0 | 1 | 7 =>
+        let code := hd 99 op in
+        let n := feed_amount p wire a1 in
+        let dest := if code =? 0 then None else Some a2 in
+        if (code =? 1) && negb (len (stream_buffer p) =? 0) then refine_ops f maxc p wire rest (k + 1) else
+        match sparse maxc p (take n wire) dest, aparse maxc a (take n wire) dest with
+        | StOk p' s, AOk a' s' =>
+          if ast_eqb (abs p') a' && status_eqb s s' then refine_ops f maxc p' (drop n wire) rest (k + 1) else [0; k; 1]
+        | StErr p' e s, AFail a' e' s' =>
+          if ast_eqb (abs p') a' && beq (perr_code e) (perr_code e') then refine_ops f maxc p' (drop n wire) rest (k + 1) else [0; k; 2]
+        | StPanic _, APanicked _ => [1; k]
+        | _, _ => [0; k; 3]
+        end
+      | 2 => let p' := consume_stream p a1 in
+             if ast_eqb (abs p') (aconsume_stream a a1) then refine_ops f maxc p' wire rest (k + 1) else [0; k; 4]
+      | 3 => let p' := compress p in
+             if ast_eqb (abs p') (acompress a) then refine_ops f maxc p' wire rest (k + 1) else [0; k; 5]
+      | 4 => let p' := consume_output p a1 in
+             if ast_eqb (abs p') (aconsume_output a a1) then refine_ops f maxc p' wire rest (k + 1) else [0; k; 6]
+      | 5 =>
+        let s := if a1 =? 0 then None else Some a1 in
+        match set_stream p s, aset_stream a s with
+        | SetOk p', ASetOk a' => if ast_eqb (abs p') a' then refine_ops f maxc p' wire rest (k + 1) else [0; k; 7]
+        | SetErr, ASetErr => refine_ops f maxc p wire rest (k + 1)
+        | SetPanic, ASetPanic => [1; k]
+        | _, _ => [0; k; 8]
+        end
+      | 8 =>
+        match into_input p, ainto_input a with
+        | Some b, Some b' => if beq b b' then [1; k] else [0; k; 9]
+        | None, None => [1; k]
+        | _, _ => [0; k; 10]
+        end
+      | _ => [1; k]
+      end
+    end
+  end.
+
+Definition run_str_refine (a : args) : args :=
+  let B := argn a 0 in let maxc := argn a 1 in let wire := arg a 2 in
+  let ops := skipn 3 a in
+  match run_schedule norm_impl maxc (new_parser B) wire [] with
+  | SOk rp done unfed out =>
+    match into_stream_parser rp with
+    | inl p => [refine_ops (length ops + 2) maxc p unfed ops 0]
+    | inr e => [[3]]
+    end
+  | _ => [[888888]]
+  end.
+
+(* ---- lockstep check of the step statements of Parser/StreamSpec.v on the abstract machine ---- *)
+From FV Require Import Parser.StreamSpec.
+Definition later_streams (a : ast) : list N :=
+  match a_stream a with
+  | Some cur => filter (fun sg => match cmp_input_streams (r_role (a_req a)) sg (Some cur) with Some Gt => true | _ => false end)
+                       IS_INPUT_STREAM
+  | None => []
+  end.
+Fixpoint inv_ops (fuel : nat) (maxc : N) (a : ast) (wire : bytes) (ops : list (list N)) (k : N) : list N :=
+  match fuel with
+  | O => [2; k]
+  | S f =>
+    match ops with
+    | [] => [1; k]
+    | op :: rest =>
+      let a1 := nth 1 op 0 in let a2 := nth 2 op 0 in
+      match hd 99 op with
+      | 0 | 1 | 7 =>
+        let code := hd 99 op in
+        let n := N.min a1 (N.min (a_space a) (len wire)) in
+        let dest := if code =? 0 then None else Some a2 in
+        if (code =? 1) && negb (len (a_parsed a) =? 0) then inv_ops f maxc a wire rest (k + 1) else
+        let new := take n wire in let u := drop n wire in
+        let chk (a' : ast) (s : status) (ok : bool) : list N :=
+          if negb (beq (K a (new ++ u)) (s_dest s ++ K a' u)) then [0; k; 1]
+          else if negb (beq (R maxc a (new ++ u)) (R maxc a' u)) then [0; k; 2]
+          else if negb (forallb (fun sg => beq (F (Some sg) a (new ++ u)) (F (Some sg) a' u)) (later_streams a)) then [0; k; 3]
+          else if ok && negb (Bool.eqb (s_end s)
+                    (match a_stream a with None => true | Some _ =>
+                       at_terminator (r_role (a_req a)) (r_id (a_req a)) (a_stream a) (a_prem a') (a_pad a') (a_raw a') end)) then [0; k; 4]
+          else if negb (s_output s =? len (a_out a') - len (a_out a)) then [0; k; 5]
+          else inv_ops f maxc a' u rest (k + 1) in
+        match aparse maxc a new dest with
+        | AOk a' s => chk a' s true
+        | AFail a' e s => chk a' s false
+        | APanicked _ => [1; k]
+        end
+      | 2 => let a' := aconsume_stream a a1 in
+             if beq (K a wire) (take (N.min a1 (len (a_parsed a))) (a_parsed a) ++ K a' wire) then inv_ops f maxc a' wire rest (k + 1) else [0; k; 6]
+      | 3 => let a' := acompress a in
+             if beq (K a wire) (K a' wire) && beq (R maxc a wire) (R maxc a' wire) then inv_ops f maxc a' wire rest (k + 1) else [0; k; 7]
+      | 4 => let a' := aconsume_output a a1 in
+             if beq (R maxc a wire) (take (N.min a1 (len (a_out a))) (a_out a) ++ R maxc a' wire) then inv_ops f maxc a' wire rest (k + 1) else [0; k; 8]
+      | 5 =>
+        match aset_stream a (if a1 =? 0 then None else Some a1) with
+        | ASetOk a' =>
+          (* a later stream's future content is what the new epoch starts with *)
+          if (match a1 with 0 => true | _ => if optN_eqb (Some a1) (a_stream a) then true
+                                             else beq (F (Some a1) a wire) (K a' wire) end)
+             && beq (R maxc a wire) (R maxc a' wire)
+          then inv_ops f maxc a' wire rest (k + 1) else [0; k; 9]
+        | ASetErr => inv_ops f maxc a wire rest (k + 1)
+        | ASetPanic => [1; k]
+        end
+      | _ => [1; k]
+      end
+    end
+  end.
+
+Definition run_str_inv (a : args) : args :=
+  let B := argn a 0 in let maxc := argn a 1 in let wire := arg a 2 in
+  let ops := skipn 3 a in
+  match run_schedule norm_impl maxc (new_parser B) wire [] with
+  | SOk rp done unfed out =>
+    match into_stream_parser rp with
+    | inl p => [inv_ops (length ops + 2) maxc (abs p) unfed ops 0]
+    | inr e => [[3]]
+    end
+  | _ => [[888888]]
+  end.
